@@ -88,8 +88,8 @@ func R33() Rule {
 			n := 0
 			tpkg := t.pkg
 			for _, lf := range P.Scope(fn, func(f *ssa.Function) bool { return core.PkgPathOf(f) != tpkg }) {
-				if lf != fn && !lastResultIsErrorType(lf) {
-					continue // a query helper over the elements acknowledges nothing
+				if lf != fn && lf.Parent() == nil && !lastResultIsErrorType(lf) {
+					continue // a query helper over the elements acknowledges nothing (function literals of the anchor are part of it)
 				}
 				for _, lp := range rangeLoops(lf) {
 					if !elemIs(lp.elem, t.elems...) {
